@@ -44,6 +44,12 @@ Count == /\ IsEvent("Count")
          /\ va' = Cleanup(va, la, now, c) /\ vb' = Cleanup(vb, lb, now, c)
          /\ UNCHANGED <<scn, c, now, la, lb, loga, logb>> /\ nev' = nev + 1
 
+(* b becomes a clone of a: Clone expires a's old buckets, then copies values and checkpoint; from here on the two counters   *)
+(* live separate lives, each with the increments it has seen so far                                                     *)
+Clone == /\ IsEvent("Clone")
+         /\ va' = Cleanup(va, la, now, c) /\ vb' = Cleanup(va, la, now, c) /\ lb' = la /\ logb' = loga
+         /\ UNCHANGED <<scn, c, now, la, loga, bad, drift>> /\ nev' = nev + 1
+
 CReset == /\ IsEvent("CReset")
           /\ va' = Zeros(c.n) /\ la' = Never /\ vb' = Zeros(c.n) /\ lb' = Never /\ loga' = <<>> /\ logb' = <<>>
           /\ UNCHANGED <<scn, c, now, bad, drift>> /\ nev' = nev + 1
@@ -51,6 +57,6 @@ CReset == /\ IsEvent("CReset")
 End == /\ IsEvent("End")
        /\ JsonSerialize("result.json", [bad |-> bad, drift |-> drift, events |-> nev, lines |-> l])
        /\ UNCHANGED vars
-Next == Reset \/ Adv \/ Inc \/ Count \/ CReset \/ End
+Next == Reset \/ Adv \/ Inc \/ Count \/ Clone \/ CReset \/ End
 Spec == Init /\ [][Next]_vars
 =============================================================================
